@@ -151,7 +151,19 @@ func (e *Env) rebuild() {
 	for i, f := range e.listen {
 		hs = append(hs, &listener{e: e, idx: i, fails: f})
 	}
-	k.SetHooks(types.NewMultiFundraisingHooks(hs...))
+	// the listeners reach the keeper the way several modules hand them over: flat, or with the first two (or the last
+	// two) already combined by their module into a dispatcher of their own, and with an empty slot of a module that
+	// provides none.  The order in which a hook reaches them must be the same in every arrangement
+	switch {
+	case len(hs) >= 3 && len(hs)%2 == 1:
+		k.SetHooks(types.NewMultiFundraisingHooks(types.NewMultiFundraisingHooks(hs[0], hs[1]), types.NewMultiFundraisingHooks(hs[2:]...)))
+	case len(hs) >= 3:
+		k.SetHooks(types.NewMultiFundraisingHooks(append([]types.FundraisingHooks{types.NewMultiFundraisingHooks(hs[:2]...)}, hs[2:]...)...))
+	case len(hs) == 2:
+		k.SetHooks(types.NewMultiFundraisingHooks(hs[0], types.NewMultiFundraisingHooks(hs[1])))
+	default:
+		k.SetHooks(types.NewMultiFundraisingHooks(hs...))
+	}
 	e.k = k
 	e.ms = keeper.NewMsgServerImpl(k)
 	e.qs = keeper.NewQueryServerImpl(k)
